@@ -929,4 +929,7 @@ func TestVerifC33(t *testing.T) {
 		// fingerprint: decoder, mutation mode, how many mutants were accepted (log2 bucket)
 		c.Distinct(fmt.Sprintf("%s|%s|%d", d.name, modeNames[mode], bits.Len(uint(accepted-before))))
 	})
+
+	// the length-prefixed framing every one of these messages arrives in (zz_verif_c33_framing_test.go)
+	framingGroups(r)
 }
